@@ -39,7 +39,10 @@ RegProbe ==
   /\ s' = s
 
 ProbeEnd == Step("ProbeEnd") /\ Req("C02", Ev.orig_back) /\ s' = s
-Shapes == Step("Shapes") /\ Req("C13", Ev.many_args_ok = Ev.n /\ Ev.wide_ret_ok = Ev.n /\ Ev.pair_ret_ok = Ev.n) /\ s' = s
+\* agg_c: a 24-byte aggregate by value through the C ABI (on the stack); cross_abi: a replacement of the other ABI for the same
+\* function is either not admitted (the gate, C09) or receives what the caller supplied
+Shapes == Step("Shapes") /\ Req("C13", Ev.many_args_ok = Ev.n /\ Ev.wide_ret_ok = Ev.n /\ Ev.pair_ret_ok = Ev.n
+                                        /\ Ev.agg_c_ok = Ev.n /\ Ev.cross_abi \in {"refused", "intact"}) /\ s' = s
 ChildExit == Step("ChildExit") /\ Ev.signal = 0 /\ Ev.code = 0 /\ s' = s
 Other == l <= Last(sc) /\ Ev.ev \in {"Mmap", "Munmap", "Mprotect", "Write", "Flush", "Note"} /\ l' = l + 1 /\ sc' = sc /\ s' = s
 
